@@ -628,6 +628,13 @@ class CallsMixin:
     def b_ite(self, args, kwargs, node):
         return self.ite(self.truth(args[0]), args[1], args[2])
 
+    def b_same(self, args, kwargs, node):
+        """same(a, b): identical representation (all leaves equal) - implies ==, cheap for lists/dicts in specs."""
+        a, b = args
+        if a.kind != b.kind:
+            b = K.coerce(b, a.kind)
+        return K.vbool(z3.And(*[x == y for x, y in zip(a.terms, b.terms)]) if a.terms else z3.BoolVal(True))
+
     def b_is_none(self, args, kwargs, node):
         v = args[0]
         if isinstance(v.kind, K._None):
